@@ -307,7 +307,8 @@ def check_print_clauses(ctx, rng, conn, entries, case):
     for (e,) in rows:
         if not seen or seen[-1] is not e:
             seen.append(e)
-    ptx = [normalise(t) for t in pentries if isinstance(t, data.Transaction)]
+    # (a transaction the loader left without postings -- a booking error -- is printed but has no row for the SELECT route to show)
+    ptx = [normalise(t) for t in pentries if isinstance(t, data.Transaction) and t.postings]
     stx = [normalise(t) for t in seen]
     ctx.count('obs.print_clause_cases')
     if perrors or ptx != stx:
